@@ -1950,3 +1950,38 @@ def _args_new2(ex, c, a, dt):
         if blocks:
             return Opaque('Arguments', blocks[-1])
     return _orig_args_new(ex, c, a, dt)
+
+
+@native(('slice', 'partition_point'))
+def _partition_point(ex, c, a, dt):
+    its = items(a[0])
+    i = 0
+    for x in its:
+        if not truth(ex, ex.call_value(a[1], [Cell(Ref(x))])):
+            break
+        i += 1
+    return i
+@native(('slice', 'binary_search_by'), ('slice', 'binary_search_by_key'), ('slice', 'binary_search'))
+def _binary_search(ex, c, a, dt):
+    its = items(a[0])
+    for i, x in enumerate(its):
+        if c.method == 'binary_search':
+            o = cmp_val(ex, x.v, a[1])
+        elif c.method == 'binary_search_by':
+            o = ex.call_value(a[1], [Cell(Ref(x))]).vi - 1
+        else:
+            o = cmp_val(ex, ex.call_value(a[2], [Cell(Ref(x))]), a[1])
+        if o == 0:
+            return OK(i)
+        if o > 0:
+            return ERR(i)
+    return ERR(len(its))
+@native(('String', 'truncate'))
+def _str_truncate(ex, c, a, dt):
+    s = as_str(a[0]).encode(); n_ = concrete_int(ex, a[1])
+    if n_ < len(s):
+        try:
+            a[0].cell.v = s[:n_].decode()
+        except UnicodeDecodeError:
+            raise Panic('assertion failed: self.is_char_boundary(new_len)')
+    return UNIT
